@@ -53,4 +53,22 @@ PROPS['C08'] = {
     'assumptions': ['grids are rectangular (Grid.WF); reset well-formedness (C13) supplies the valid initial state'],
 }
 
+PROPS['C09'] = {
+    'targets': ['GridVerse.Props.C09'],
+    'theorem_files': [('GridVerse/Props/C09.lean', 'C09_')] + AG('Objects'),
+    'audit_prefix': 'C09_',
+    'families': {'quick': DYN_QUICK, 'thorough': DYN_THOROUGH},
+    'trusted_base': ['transition functions modelled by hand, tied by correspondence (exhaustive small scope + random, recorded draws)'],
+    'assumptions': ['grids are rectangular (Grid.WF)', 'the multiset of objects is expressed through counts of every door-status-insensitive predicate'],
+}
+
+PROPS['C10'] = {
+    'targets': ['GridVerse.Props.C10'],
+    'theorem_files': [('GridVerse/Props/C10.lean', 'C10_')] + AG('Objects', 'Actions'),
+    'audit_prefix': 'C10_',
+    'families': {'quick': DYN_QUICK, 'thorough': DYN_THOROUGH},
+    'trusted_base': ['transition functions modelled by hand, tied by correspondence (exhaustive small scope + random, recorded draws)'],
+    'assumptions': ['grids are rectangular (Grid.WF)'],
+}
+
 NOT_CLAIMED = {}
